@@ -14,7 +14,7 @@ pub struct Case {
     pub subset: Vec<u32>,
     /// the implementation sees every weight divided by this power of two (exact in f64; the weighted coefficients are
     /// normalised by the largest weight, so the model, which works on the integer numerators, must give the same bits)
-    pub wdiv: u32,
+    pub wdiv: u64,
 }
 impl Case {
     pub fn request(&self) -> String {
@@ -24,7 +24,7 @@ impl Case {
         let g = GraphCase::parse(t);
         let weighted = t.next() != 0;
         let subset = t.list(|t| t.next() as u32);
-        let wdiv = t.next() as u32;
+        let wdiv = t.next() as u64;
         Case { g, weighted, subset, wdiv }
     }
 }
@@ -111,7 +111,7 @@ pub fn gen_case(rng: &mut Rng, _profile: &str, size: usize) -> Case {
     if subset.is_empty() { subset.push(*rng.pick(&g.nodes)); }
     if rng.chance(7) { subset.push(99); }
     rng.shuffle(&mut subset);
-    Case { g, weighted, subset, wdiv: *rng.pick(&[1u32, 1, 2, 2, 4]) }
+    Case { g, weighted, subset, wdiv: *rng.pick(&[1u64, 1, 2, 2, 4, 1 << 60]) }
 }
 
 pub fn candidates(c: &Case) -> Vec<String> {
